@@ -368,6 +368,152 @@ def nested_abort_ties(rng, count):
     return out
 
 
+def between_waits(rng, count):
+    """C01/C05/C08/C11: a nested run is cancelled by its parent (critical failure or timeout)
+    while it is between two waits of its main loop: a job of the nested scheduler with a
+    successor completes in the instant of the abort, every offset of 0..5 loop iterations on
+    both sides; a job of the grand-parent may be waiting behind the aborting scheduler"""
+    out = []
+    sweep = [(ka, kb) for ka in range(6) for kb in range(6)]
+    rng.shuffle(sweep)
+    idx = 0
+    while len(out) < count:
+        ka, kb = sweep[idx % len(sweep)]
+        idx += 1
+        t = rng.choice([1, 2])
+        three = rng.random() < 0.5
+        by_timeout = rng.random() < 0.3
+        inner = S([J(), J(0)] + ([J(1)] if rng.random() < 0.3 else []), *([] if three else []))
+        if three:
+            # top > mid > inner: mid aborts, top carries on and has a job behind mid
+            mid = S([J(), inner])
+            shape = tree(S([mid, J(0)]))
+        else:
+            shape = tree(S([J(), inner]))
+        kind, parent, _ = shape
+        n = len(kind)
+        scheds = [i for i in range(n) if kind[i] == "sched"]
+        innermost = scheds[-1]
+        aborting = parent[innermost] - 1
+        mem = [i for i in range(n) if parent[i] == innermost + 1]
+        bomb = [i for i in range(n) if kind[i] == "job" and parent[i] == aborting + 1][0]
+        dur, outc, crit, tmo = [0] * n, ["ok"] * n, [False] * n, [-1] * n
+        for i in range(n):
+            if kind[i] == "job":
+                dur[i] = rng.choice([t + 1, t + 2, t + 3])
+        dur[mem[0]] = t
+        if by_timeout:
+            tmo[aborting] = t
+        else:
+            dur[bomb], outc[bomb], crit[bomb] = t, "exc", True
+        sc = _mk(rng, shape, dur=dur, out=outc, crit=crit, tmo=tmo,
+                 cdur=[rng.choice([0, 0, 1]) for _ in range(n)], pure=False)
+        k = [0] * n
+        k[mem[0]], k[bomb] = ka, kb
+        sc["harness"]["k"] = k
+        sc["harness"]["verbose"] = False
+        out.append(sc)
+    return out
+
+
+def cancel_cliques(rng, count):
+    """C03/C05/C08/C11: jobs whose clean-up, once cancelled, completes only when a sibling has
+    been cancelled too (a lock the sibling holds until then): pairs of a `reporter` and its
+    `keeper`, given up together at the end of a run (forever jobs), on a timeout, on a critical
+    failure, or when their nested scheduler is cancelled"""
+    out = []
+    while len(out) < count:
+        pairs = rng.randint(1, 3)
+        how = rng.choice(["forever", "timeout", "critical", "nested"])
+        t = rng.choice([1, 2])
+        kids = []
+        for _ in range(pairs):
+            kids += [J(), J()]                     # keeper, reporter
+        regular = [J(), J(2 * pairs)] if rng.random() < 0.5 else [J()]
+        body = S(kids + regular)
+        if how == "nested":
+            shape = tree(S([J(), body]))
+        else:
+            shape = tree(body)
+        kind, parent, _ = shape
+        n = len(kind)
+        holder = [i for i in range(n) if kind[i] == "sched"][-1]
+        mem = [i for i in range(n) if parent[i] == holder + 1]
+        dur, outc, crit, tmo = [0] * n, ["ok"] * n, [False] * n, [-1] * n
+        forever, cwait = [False] * n, [0] * n
+        for p in range(pairs):
+            keeper, reporter = mem[2 * p], mem[2 * p + 1]
+            dur[keeper] = rng.choice([-1, -1, t + 3])
+            dur[reporter] = rng.choice([-1, t + 2, t + 3])
+            cwait[reporter] = keeper + 1
+            if rng.random() < 0.3:
+                cwait[keeper] = reporter + 1          # they wait for each other
+            if how == "forever" or dur[keeper] < 0 or dur[reporter] < 0:
+                forever[keeper] = forever[reporter] = how != "timeout" or rng.random() < 0.5
+        rest = mem[2 * pairs:]
+        for i in rest:
+            dur[i] = rng.choice([0, 1, t])
+        if how == "timeout":
+            tmo[holder] = t
+            for i in rest[:1]:
+                dur[i] = t + 2
+        elif how == "critical":
+            dur[rest[0]], outc[rest[0]], crit[rest[0]] = t, "exc", True
+        elif how == "nested":
+            first = [i for i in range(n) if kind[i] == "job" and parent[i] == 1][0]
+            dur[first], outc[first], crit[first] = t, "exc", True
+            for i in rest:
+                dur[i] = t + 2
+        if how != "timeout":
+            for i in mem[:2 * pairs]:
+                if dur[i] < 0:
+                    forever[i] = True
+        sc = _mk(rng, shape, dur=dur, out=outc, crit=crit, tmo=tmo, forever=forever, cwait=cwait,
+                 cdur=[rng.choice([0, 0, 1]) for _ in range(n)])
+        if admissible(sc["cfg"]):
+            out.append(sc)
+    return out
+
+
+def empty_stages(rng, count):
+    """C03/C09/C10: nested schedulers that hold no job when the run begins (an optional stage
+    that ended up empty), with jobs behind them and forever jobs beside them"""
+    out = []
+    while len(out) < count:
+        k = rng.randint(1, 3)
+        kids = [J()]
+        empties = []
+        for _ in range(k):
+            empties.append(len(kids))
+            kids.append(S([], *( [rng.randrange(len(kids))] if rng.random() < 0.6 else [])))
+            if rng.random() < 0.6:
+                kids.append(J(len(kids) - 1))
+        nf = rng.randint(0, 2)
+        fidx = []
+        for _ in range(nf):
+            fidx.append(len(kids))
+            kids.append(J())
+        deep = rng.random() < 0.3
+        shape = tree(S([S(kids), J(0)])) if deep else tree(S(kids))
+        kind, parent, _ = shape
+        n = len(kind)
+        dur = [rng.choice([0, 1, 2]) if kind[i] == "job" else 0 for i in range(n)]
+        forever = [False] * n
+        holder = 2 if deep else 1
+        mem = [i for i in range(n) if parent[i] == holder]
+        for f in fidx:
+            forever[mem[f]] = True
+            dur[mem[f]] = rng.choice([-1, -1, 3])
+        # an empty scheduler ends at once; give it a timeout now and then (either is admissible)
+        tmo = [rng.choice([-1, 1, 2]) if kind[i] == "sched" and i > 0 else -1 for i in range(n)]
+        sc = _mk(rng, shape, dur=dur, forever=forever, tmo=tmo,
+                 crit=[rng.random() < 0.3 for _ in range(n)],
+                 win=[rng.choice([0, 0, 0, 2]) if kind[i] == "sched" else 0 for i in range(n)])
+        if admissible(sc["cfg"]):
+            out.append(sc)
+    return out
+
+
 def failed_nested_successors(rng, count):
     """C03/C10/C01: a non-critical nested scheduler fails (a critical job inside raises,
     or its own timeout fires) and jobs of the parent are waiting behind it"""
@@ -530,17 +676,19 @@ def _reqs_everything(shape, i):
 
 
 STRUCTURED = {
-    "C01": [(joins, 0.25), (small_perms, 0.1), (nested_gap, 0.15)],
+    "C01": [(joins, 0.25), (small_perms, 0.1), (nested_gap, 0.15), (between_waits, 0.08)],
     "C02": [(tie_groups, 0.3), (simultaneous_failures, 0.15)],
-    "C03": [(window_failures, 0.3), (deadlines, 0.1), (window_ties, 0.15), (failed_nested_successors, 0.1)],
+    "C03": [(window_failures, 0.25), (deadlines, 0.1), (window_ties, 0.12), (failed_nested_successors, 0.1),
+            (cancel_cliques, 0.08), (empty_stages, 0.06)],
     "C04": [(critical_instants, 0.15), (deadlines, 0.2), (crit_chains, 0.15), (simultaneous_failures, 0.15)],
-    "C05": [(critical_instants, 0.35), (simultaneous_failures, 0.15), (nested_abort_ties, 0.15)],
+    "C05": [(critical_instants, 0.35), (simultaneous_failures, 0.15), (nested_abort_ties, 0.1), (between_waits, 0.06)],
     "C06": [(window_failures, 0.3), (simultaneous_failures, 0.1)],
     "C07": [(window_failures, 0.25), (tie_groups, 0.1), (critical_instants, 0.1), (window_ties, 0.15)],
-    "C08": [(deadlines, 0.45), (nested_abort_ties, 0.1)],
-    "C09": [(forevers, 0.5)],
+    "C08": [(deadlines, 0.45), (nested_abort_ties, 0.1), (between_waits, 0.05)],
+    "C09": [(forevers, 0.45), (empty_stages, 0.04), (cancel_cliques, 0.04)],
     "C10": [(crit_chains, 0.25), (nested_gap, 0.15), (failed_nested_successors, 0.15)],
-    "C11": [(shutdown_grid, 0.3), (deadlines, 0.15), (nested_gap, 0.1), (nested_abort_ties, 0.1)],
+    "C11": [(shutdown_grid, 0.3), (deadlines, 0.15), (nested_gap, 0.1), (nested_abort_ties, 0.1), (between_waits, 0.06),
+            (cancel_cliques, 0.05)],
     "C12": [(joins, 0.15), (small_perms, 0.15), (tie_groups, 0.15), (window_ties, 0.25)],
     "C13": [(shutdown_grid, 0.5)],
     "C14": [(window_failures, 0.15), (critical_instants, 0.1), (window_ties, 0.15)],
@@ -580,6 +728,9 @@ def scenarios(prop, count, seed):
         # now and then the caller cancels the whole run from outside
         if rng.random() < {"C11": 0.15, "C13": 0.08, "C05": 0.05}.get(prop, 0.03):
             sc["cfg"]["ucancel"] = rng.choice([0, 1, 1, 2, 3])
+        # now and then shutdown() has been called on the tree before the run
+        if rng.random() < {"C04": 0.08, "C13": 0.08, "C08": 0.05, "C11": 0.05}.get(prop, 0.02):
+            sc["cfg"]["preshut"] = True
         if prop in ("C06", "C03", "C14", "C05", "C11") and rng.random() < 0.25:
             hrn["verbose"] = True
         if hrn.get("verbose") == "keep":
